@@ -55,6 +55,7 @@ Outcome runCaster(const Plan & p, Ctx & c)
   auto centre = [&](size_t axis, size_t idx) {return (long double)map->getCellCentersPositionAlong(axis)[idx];};
 
   bool originSet = false; Pt curO = Pt::Zero(); size_t no = 0; bool stateConsumed = false;
+  bool freshEnd = false; Pt curE = Pt::Zero();   // setEndPoint was the previous call: cast() then has a named end point
 
   // ---- invariants of one cast result (input clauses) and equality with a fresh caster (history clause)
   auto checkRay = [&](const Ray & ray, const Pt & o, const Pt & e, const char * how) -> Outcome {
@@ -160,16 +161,26 @@ Outcome runCaster(const Plan & p, Ctx & c)
   for (const Op & op : p.ops) {
     ++no; ++c.steps;
     Pt o = pt(op.o), e = pt(op.e);
+    const bool endJustSet = freshEnd; freshEnd = false;
     switch (op.kind) {
       case SET_ORIGIN: rc->setOriginPoint(o); curO = o; originSet = true; SIM_COUNT("op.setOriginPoint"); c.note(fmt("#%zu setOriginPoint", no)); break;
       case SET_END:
         if (!originSet) {rc->setOriginPoint(o); curO = o; originSet = true;}
-        rc->setEndPoint(e); SIM_COUNT("op.setEndPoint"); c.note(fmt("#%zu setEndPoint", no)); stateConsumed = false; break;
+        rc->setEndPoint(e); SIM_COUNT("op.setEndPoint"); c.note(fmt("#%zu setEndPoint", no)); stateConsumed = false; freshEnd = true; curE = e; break;
       case CAST0: {
           // a cast that does not name its end point: outside the history clause, executed to consume state; not compared
           if (!originSet) {rc->setOriginPoint(o); curO = o; originSet = true; rc->setEndPoint(e);}
-          Ray r = rc->cast(); c.log(r.size()); stateConsumed = true; SIM_COUNT("fault.state_consuming_cast_without_end_point.fired");
-          c.note(fmt("#%zu cast() -> %zu cells (not compared)", no, r.size())); break;
+          Ray r = rc->cast(); c.log(r.size());
+          if (endJustSet) {
+            // setOriginPoint / setEndPoint / cast(): the three-call form of a cast that names its end point
+            SIM_PROBE("three_call_form_setOrigin_setEnd_cast");
+            c.note(fmt("#%zu cast() right after setEndPoint -> %zu cells", no, r.size()));
+            Outcome oc = checkRay(r, curO, curE, "setEndPoint, cast()"); if (!oc.ok) {return oc;}
+          } else {
+            SIM_COUNT("fault.state_consuming_cast_without_end_point.fired");
+            c.note(fmt("#%zu cast() -> %zu cells (not compared)", no, r.size()));
+          }
+          stateConsumed = true; break;
         }
       case CAST1: {
           if (!originSet) {rc->setOriginPoint(o); curO = o; originSet = true;}
@@ -285,6 +296,7 @@ struct PropC14
         op.kind = r.pick(kinds);
       }
       p.ops.push_back(op);
+      if (op.kind == SET_END && r.chance(0.6)) {Op c0 = op; c0.kind = CAST0; p.ops.push_back(c0);}
     }
     return p;
   }
@@ -383,7 +395,7 @@ struct PropC14
     return {"end_point_on_or_near_a_cell_border", "coincident_origin_and_end", "axis_aligned_ray_zero_step_axis", "origin_and_end_in_same_cell",
       "exact_diagonal_ray", "ray_longer_than_1000_cells", "cast_after_traversal_state_was_consumed",
       "ray_ends_in_a_neighbour_of_the_end_index_cell_border_case",
-      "caster_default_constructed_then_given_the_grid", "grid_built_from_maximal_range"};
+      "caster_default_constructed_then_given_the_grid", "grid_built_from_maximal_range", "three_call_form_setOrigin_setEnd_cast"};
   }
   Json describe() const
   {
